@@ -1643,4 +1643,562 @@ theorem normalized_unique : ∀ {a b : List Nat}, Limbs a → TopNZ a → Limbs 
         | cons a as => rw [List.getLastD_cons, List.getLastD_cons] at this; rw [List.getLastD_cons]; exact this
       rw [e1, ih hxs txs hys tys e2]
 
+/-! ### output streams with an injected fault -/
+
+/-- state of a stream whose write containing byte `k` fails: the error flag is set exactly when the
+    position has passed `k`, and then exactly one fault has fired -/
+def Faulty (k : Nat) (s : OStream) : Prop :=
+  s.failAt = some k ∧ (s.err = true ↔ k < s.pos) ∧ s.fired = (if k < s.pos then 1 else 0)
+
+/-- a stream without fault -/
+def Healthy (s : OStream) : Prop :=
+  s.failAt = none ∧ s.err = false ∧ s.fired = 0 ∧ s.pos = s.out.length
+
+theorem faulty_init (k : Nat) : Faulty k { failAt := some k } := by simp [Faulty]
+theorem healthy_init : Healthy {} := by simp [Healthy]
+
+theorem write_faulty {k : Nat} {s : OStream} (h : Faulty k s) (chunk : List Nat) :
+    Faulty k (s.write chunk).1 ∧ (s.write chunk).1.pos = s.pos + chunk.length ∧
+    ((s.write chunk).1.err = false → (s.write chunk).2 = chunk.length) := by
+  obtain ⟨hf, he, hfi⟩ := h
+  unfold OStream.write
+  by_cases hc : chunk.isEmpty
+  · have : chunk = [] := by simpa using hc
+    subst this; simp [Faulty, hf, he, hfi]
+  · simp only [hc, Bool.false_eq_true, if_false, hf]
+    by_cases hit : s.fired = 0 ∧ s.pos ≤ k ∧ k < s.pos + chunk.length
+    · simp only [hit, and_self, if_true]
+      refine ⟨⟨by simp, by simp; omega, by simp; omega⟩, by simp, by simp⟩
+    · simp only [hit, if_false]
+      refine ⟨⟨by simp, ?_, ?_⟩, by simp, by simp⟩
+      · simp only; rw [he]
+        constructor
+        · intro h1; omega
+        · intro h1
+          by_contra h2
+          have hfz : s.fired = 0 := by rw [hfi]; simp [h2]
+          exact hit ⟨hfz, by omega, h1⟩
+      · simp only; rw [hfi]
+        by_cases h1 : k < s.pos
+        · have : k < s.pos + chunk.length := by omega
+          simp [h1, this]
+        · have hfz : s.fired = 0 := by rw [hfi]; simp [h1]
+          have : ¬ k < s.pos + chunk.length := fun h2 => hit ⟨hfz, by omega, h2⟩
+          simp [h1, this]
+
+theorem write_healthy {s : OStream} (h : Healthy s) (chunk : List Nat) :
+    Healthy (s.write chunk).1 ∧ (s.write chunk).1.out = s.out ++ chunk ∧ (s.write chunk).2 = chunk.length := by
+  obtain ⟨hf, he, hfi, hp⟩ := h
+  unfold OStream.write
+  by_cases hc : chunk.isEmpty
+  · have : chunk = [] := by simpa using hc
+    subst this; simp [Healthy, hf, he, hfi, hp]
+  · simp only [hc, Bool.false_eq_true, if_false, hf]
+    refine ⟨⟨by simp, by simp [he], by simp [hfi], by simp [hp]⟩, by simp, by simp⟩
+
+/-- number of bytes `mpz_out_str` writes -/
+def mpzTextLen (base : Int) (x : Int) : Nat :=
+  match outBase base with
+  | none => 0
+  | some b => if x = 0 then 1 else (if x < 0 then 1 else 0) + (magText base b x.natAbs).length
+
+theorem mpz_out_str_faulty {k : Nat} {s : OStream} (h : Faulty k s) (base x : Int) :
+    Faulty k (mpz_out_str s base x).2 ∧ (mpz_out_str s base x).2.pos = s.pos + mpzTextLen base x ∧
+    ((mpz_out_str s base x).2.err = true → (mpz_out_str s base x).1 = 0) ∧
+    ((mpz_out_str s base x).2.err = false → (mpz_out_str s base x).1 = mpzTextLen base x) := by
+  unfold mpz_out_str mpzTextLen
+  cases hb : outBase base with
+  | none =>
+    simp only
+    refine ⟨h, by simp, ?_, ?_⟩ <;> intro _ <;> simp
+  | some b =>
+    simp only
+    by_cases hx : x = 0
+    · simp only [hx, if_true]
+      obtain ⟨w1, w2, w3⟩ := write_faulty h [48]
+      refine ⟨w1, by simpa using w2, ?_, ?_⟩ <;> intro he <;> simp [he]
+    · simp only [hx, if_false]
+      by_cases hn : x < 0
+      · simp only [hn, if_true]
+        obtain ⟨w1, w2, w3⟩ := write_faulty h [45]
+        obtain ⟨v1, v2, v3⟩ := write_faulty w1 (magText base b x.natAbs)
+        refine ⟨v1, by rw [v2, w2]; simp; omega, ?_, ?_⟩ <;> intro he <;> simp [he]
+        exact v3 he
+      · simp only [hn, if_false]
+        obtain ⟨v1, v2, v3⟩ := write_faulty h (magText base b x.natAbs)
+        refine ⟨v1, by rw [v2]; simp, ?_, ?_⟩ <;> intro he <;> simp [he]
+        exact v3 he
+
+theorem mpz_out_str_healthy {s : OStream} (h : Healthy s) (base x : Int) :
+    Healthy (mpz_out_str s base x).2 ∧
+    (mpz_out_str s base x).2.out.length = s.out.length + mpzTextLen base x ∧
+    (mpz_out_str s base x).1 = mpzTextLen base x := by
+  unfold mpz_out_str mpzTextLen
+  cases hb : outBase base with
+  | none => simp only; exact ⟨h, by simp, by simp⟩
+  | some b =>
+    simp only
+    by_cases hx : x = 0
+    · simp only [hx, if_true]
+      obtain ⟨w1, w2, w3⟩ := write_healthy h [48]
+      refine ⟨w1, by rw [w2]; simp, ?_⟩
+      simp [w1.2.1]
+    · simp only [hx, if_false]
+      by_cases hn : x < 0
+      · simp only [hn, if_true]
+        obtain ⟨w1, w2, w3⟩ := write_healthy h [45]
+        obtain ⟨v1, v2, v3⟩ := write_healthy w1 (magText base b x.natAbs)
+        refine ⟨v1, by rw [v2, w2]; simp; omega, ?_⟩
+        simp [v1.2.1, v3]
+      · simp only [hn, if_false]
+        obtain ⟨v1, v2, v3⟩ := write_healthy h (magText base b x.natAbs)
+        refine ⟨v1, by rw [v2]; simp, ?_⟩
+        simp [v1.2.1, v3]
+
+theorem faulty_err_mono {k : Nat} {s s' : OStream} (h : Faulty k s) (h' : Faulty k s') (hp : s.pos ≤ s'.pos)
+    (he : s'.err = false) : s.err = false := by
+  have h1 : ¬ k < s'.pos := by intro hk; have := h'.2.1.mpr hk; rw [he] at this; exact absurd this (by simp)
+  have h2 : ¬ k < s.pos := by omega
+  cases hs : s.err with
+  | false => rfl
+  | true => exact absurd (h.2.1.mp hs) h2
+
+theorem faulty_final {k : Nat} {s : OStream} (h : Faulty k s) : (s.err = true ↔ k < s.pos) ∧ (k < s.pos → s.fired = 1) :=
+  ⟨h.2.1, fun hk => by rw [h.2.2]; simp [hk]⟩
+
+/-- number of bytes `mpq_out_str` writes -/
+def mpqTextLen (base : Int) (num den : Int) : Nat :=
+  mpzTextLen base num + (if den ≠ 1 then 1 + mpzTextLen base den else 0)
+
+theorem mpq_out_str_faulty {k : Nat} {s : OStream} (h : Faulty k s) (base num den : Int) :
+    Faulty k (mpq_out_str s base num den).2 ∧ (mpq_out_str s base num den).2.pos = s.pos + mpqTextLen base num den ∧
+    ((mpq_out_str s base num den).2.err = true → (mpq_out_str s base num den).1 = 0) ∧
+    ((mpq_out_str s base num den).2.err = false → (mpq_out_str s base num den).1 = mpqTextLen base num den) := by
+  obtain ⟨a1, a2, a3, a4⟩ := mpz_out_str_faulty h base num
+  unfold mpq_out_str mpqTextLen
+  by_cases hd : den ≠ 1
+  · simp only [hd, ne_eq, not_false_eq_true, if_true]
+    obtain ⟨w1, w2, _⟩ := write_faulty a1 [47]
+    obtain ⟨b1, b2, b3, b4⟩ := mpz_out_str_faulty w1 base den
+    refine ⟨b1, by rw [b2, w2, a2]; simp; omega, ?_, ?_⟩ <;> intro he <;> simp only [he, if_true, if_false, Bool.false_eq_true]
+    have e1 := faulty_err_mono a1 b1 (by rw [b2, w2]; omega) he
+    rw [a4 e1, b4 he]
+  · simp only [hd, if_false]
+    refine ⟨a1, by rw [a2]; simp, ?_, ?_⟩ <;> intro he <;> simp only [he, if_true, if_false, Bool.false_eq_true]
+    rw [a4 he]; simp
+
+theorem mpq_out_str_healthy {s : OStream} (h : Healthy s) (base num den : Int) :
+    Healthy (mpq_out_str s base num den).2 ∧
+    (mpq_out_str s base num den).2.out.length = s.out.length + mpqTextLen base num den ∧
+    (mpq_out_str s base num den).1 = mpqTextLen base num den := by
+  obtain ⟨a1, a2, a3⟩ := mpz_out_str_healthy h base num
+  unfold mpq_out_str mpqTextLen
+  by_cases hd : den ≠ 1
+  · simp only [hd, ne_eq, not_false_eq_true, if_true]
+    obtain ⟨w1, w2, _⟩ := write_healthy a1 [47]
+    obtain ⟨b1, b2, b3⟩ := mpz_out_str_healthy w1 base den
+    refine ⟨b1, by rw [b2, w2]; simp [a2]; omega, ?_⟩
+    simp only [b1.2.1, Bool.false_eq_true, if_false, a3, b3]
+  · simp only [hd, if_false]
+    refine ⟨a1, by rw [a2]; simp, ?_⟩
+    simp only [a1.2.1, Bool.false_eq_true, if_false, a3]; simp
+
+/-- number of bytes `mpf_out_str` writes for the digit string `str` (with its sign) and exponent `exp` -/
+def mpfTextLen (_base : Int) (str : List Nat) (exp : Int) : Nat :=
+  str.length + 2 + (1 + (intText exp).length)
+
+theorem mpf_out_str_faulty {k : Nat} {s : OStream} (h : Faulty k s) (base : Int) (str : List Nat) (exp : Int) :
+    Faulty k (mpf_out_str s base str exp).2 ∧ (mpf_out_str s base str exp).2.pos = s.pos + mpfTextLen base str exp ∧
+    ((mpf_out_str s base str exp).2.err = true → (mpf_out_str s base str exp).1 = 0) ∧
+    ((mpf_out_str s base str exp).2.err = false → (mpf_out_str s base str exp).1 = mpfTextLen base str exp) := by
+  unfold mpf_out_str mpfTextLen
+  simp only
+  by_cases hn : str.head? = some 45
+  · simp only [hn, if_true]
+    obtain ⟨c, t, rfl⟩ : ∃ c t, str = c :: t := by cases str <;> simp at hn ⊢
+    simp only [List.tail_cons]
+    obtain ⟨w1, p1, _⟩ := write_faulty h [45]
+    obtain ⟨w2, p2, _⟩ := write_faulty w1 [48]
+    obtain ⟨w3, p3, _⟩ := write_faulty w2 [46]
+    obtain ⟨w4, p4, n4⟩ := write_faulty w3 t
+    obtain ⟨w5, p5, n5⟩ := write_faulty w4 ((if (if base = 0 then 10 else base).natAbs ≤ 10 then 101 else 64) :: intText exp)
+    refine ⟨w5, ?_, ?_, ?_⟩
+    · rw [p5, p4, p3, p2, p1]; simp; omega
+    · intro he; simp [he]
+    · intro he
+      have e4 := faulty_err_mono w4 w5 (by rw [p5]; omega) he
+      simp only [he, Bool.false_eq_true, if_false, n4 e4, n5 he, if_true]
+      simp; omega
+  · simp only [hn, if_false]
+    obtain ⟨w2, p2, _⟩ := write_faulty h [48]
+    obtain ⟨w3, p3, _⟩ := write_faulty w2 [46]
+    obtain ⟨w4, p4, n4⟩ := write_faulty w3 str
+    obtain ⟨w5, p5, n5⟩ := write_faulty w4 ((if (if base = 0 then 10 else base).natAbs ≤ 10 then 101 else 64) :: intText exp)
+    refine ⟨w5, ?_, ?_, ?_⟩
+    · rw [p5, p4, p3, p2]; simp; omega
+    · intro he; simp [he]
+    · intro he
+      have e4 := faulty_err_mono w4 w5 (by rw [p5]; omega) he
+      simp only [he, Bool.false_eq_true, if_false, n4 e4, n5 he, if_true]
+      simp; omega
+
+theorem mpz_out_raw_faulty (z : Mpz) (k : Nat) (hk : k < (out_raw_m z).length) :
+    (mpz_out_raw { failAt := some k } z).1 = 0 ∧ (mpz_out_raw { failAt := some k } z).2.fired = 1 := by
+  have hne : (out_raw_m z).isEmpty = false := by
+    cases h : out_raw_m z with
+    | nil => rw [h] at hk; simp at hk
+    | cons a t => rfl
+  have hl : (out_raw_m z).length ≠ 0 := by omega
+  simp [mpz_out_raw, OStream.write, hne, hk, hl]
+  intro h; omega
+
+/-! ### truncated input -/
+
+theorem inp_raw_truncated (v : Int) (hv : byteLen v.natAbs < 2 ^ 31) (k : Nat) (hk : k < (outRawBytes v).length)
+    (x : Mpz) (hx : x.WF) (junk : Nat → Nat) (hj : ∀ i, junk i < B) :
+    (mpz_inp_raw x ⟨outRawBytes v, some k⟩ junk).1 = 0 ∧ (mpz_inp_raw x ⟨outRawBytes v, some k⟩ junk).2.1.WF := by
+  have hlen : (outRawBytes v).length = 4 + byteLen v.natAbs := by simp [outRawBytes, hdrBytes]
+  have hb : Bytes ((outRawBytes v).take k) := Bytes_take (outRawBytes_bytes v) k
+  obtain ⟨wf, h⟩ := inp_raw_rd_spec x hx ((outRawBytes v).take k) hb junk hj
+  have hav : (Stream.mk (outRawBytes v) (some k)).avail = (outRawBytes v).take k := rfl
+  unfold mpz_inp_raw
+  rw [hav]
+  refine ⟨?_, wf⟩
+  have hkl : ((outRawBytes v).take k).length = k := by simp; omega
+  by_cases h4 : 4 ≤ k
+  · obtain ⟨e1, _, _, e4⟩ := outRaw_parts v hv []
+    have ht : ((outRawBytes v).take k).take 4 = (outRawBytes v ++ []).take 4 := by
+      rw [List.take_take, Nat.min_eq_left h4]; simp
+    rw [ht, e1, e4, hkl, if_neg (by omega)] at h
+    exact h.1
+  · rw [hkl, if_neg (by omega)] at h
+    exact h.1
+
+/-- nothing but white space before the end of the stream -/
+theorem skipWs_all_space : ∀ (ws : List Nat) (n : Nat), (∀ c ∈ ws, isspace c = true) →
+    skipWs ws n = (none, [], n + ws.length + 1) := by
+  intro ws
+  induction ws with
+  | nil => intro n _; simp [skipWs]
+  | cons c ws ih =>
+    intro n h
+    have hc : isspace c = true := h c (by simp)
+    simp only [skipWs, hc, if_true]
+    rw [ih (n + 1) (fun d hd => h d (by simp [hd]))]
+    simp; omega
+
+theorem mpz_inp_str_eof (x : Int) (ws : List Nat) (base : Int) (h : ∀ c ∈ ws, isspace c = true) :
+    (mpz_inp_str_rd x ws base).1 = 0 ∧ (mpz_inp_str_rd x ws base).2.1 = x := by
+  unfold mpz_inp_str_rd
+  rw [skipWs_all_space ws 0 h]
+  unfold mpz_inp_str_nowhite
+  by_cases hb : base > 62 <;> simp [hb]
+
+theorem skipWs_space_then (ws : List Nat) (c : Nat) (rest : List Nat) (n : Nat)
+    (h : ∀ d ∈ ws, isspace d = true) (hc : isspace c = false) :
+    skipWs (ws ++ c :: rest) n = (some c, rest, n + ws.length + 1) := by
+  induction ws generalizing n with
+  | nil => simp [skipWs, hc]
+  | cons d ws ih =>
+    have hd : isspace d = true := h d (by simp)
+    simp only [List.cons_append, skipWs, hd, if_true]
+    rw [ih (n + 1) (fun e he => h e (by simp [he]))]
+    simp; omega
+
+/-- a sign and then the end of the stream -/
+theorem mpz_inp_str_eof_sign (x : Int) (ws : List Nat) (base : Int) (h : ∀ c ∈ ws, isspace c = true) :
+    (mpz_inp_str_rd x (ws ++ [45]) base).1 = 0 ∧ (mpz_inp_str_rd x (ws ++ [45]) base).2.1 = x := by
+  unfold mpz_inp_str_rd
+  rw [skipWs_space_then ws 45 [] 0 h (by decide)]
+  unfold mpz_inp_str_nowhite
+  by_cases hb : base > 62 <;> simp [hb, getc]
+
+
+/-! ### text round trip (mpz) -/
+
+theorem digitsVal_snoc (b : Nat) (l : List Nat) (d : Nat) : digitsVal b (l ++ [d]) = digitsVal b l * b + d := by
+  simp [digitsVal, List.foldl_append]
+
+/-- digits produced by the conversion loop -/
+theorem natDigitsAux_spec (b : Nat) (hb : 2 ≤ b) : ∀ (fuel n : Nat) (acc : List Nat), n < 2 ^ fuel →
+    ∃ ds, natDigitsAux b fuel n acc = ds ++ acc ∧ digitsVal b ds = n ∧ (∀ d ∈ ds, d < b) ∧
+      (n ≠ 0 → ds ≠ [] ∧ ds.head? ≠ some 0) ∧ (n = 0 → ds = []) := by
+  intro fuel
+  induction fuel with
+  | zero =>
+    intro n acc hn
+    have : n = 0 := by simpa using hn
+    subst this
+    exact ⟨[], by simp [natDigitsAux], by simp [digitsVal], by simp, by simp, by simp⟩
+  | succ fuel ih =>
+    intro n acc hn
+    by_cases h0 : n = 0
+    · subst h0
+      exact ⟨[], by simp [natDigitsAux], by simp [digitsVal], by simp, by simp, by simp⟩
+    · have hq : n / b < 2 ^ fuel := by
+        have h1 : n / b ≤ n / 2 := Nat.div_le_div_left hb (by decide)
+        have h2 : n / 2 < 2 ^ fuel := by rw [Nat.div_lt_iff_lt_mul (by decide)]; rw [pow_succ] at hn; exact hn
+        omega
+      obtain ⟨ds', e1, e2, e3, e4, e5⟩ := ih (n / b) (n % b :: acc) hq
+      refine ⟨ds' ++ [n % b], ?_, ?_, ?_, ?_, ?_⟩
+      · simp [natDigitsAux, h0, e1]
+      · rw [digitsVal_snoc, e2]; exact Nat.div_add_mod' n b
+      · intro d hd
+        rcases List.mem_append.mp hd with h | h
+        · exact e3 d h
+        · have : d = n % b := by simpa using h
+          rw [this]; exact Nat.mod_lt _ (by omega)
+      · intro _
+        refine ⟨by simp, ?_⟩
+        by_cases hq0 : n / b = 0
+        · rw [e5 hq0]
+          have hlt : n < b := by
+            rcases Nat.lt_or_ge n b with h | h
+            · exact h
+            · have := Nat.div_pos h (by omega : 0 < b); omega
+          simp [Nat.mod_eq_of_lt hlt, h0]
+        · obtain ⟨f1, f2⟩ := e4 hq0
+          cases hds : ds' with
+          | nil => exact absurd hds f1
+          | cons a t => rw [hds] at f2; simpa using f2
+      · intro h; exact absurd h h0
+
+theorem natDigits_spec (b : Nat) (hb : 2 ≤ b) (n : Nat) :
+    digitsVal b (natDigits b n) = n ∧ (∀ d ∈ natDigits b n, d < b) ∧
+    (n ≠ 0 → natDigits b n ≠ [] ∧ (natDigits b n).head? ≠ some 0) ∧ (n = 0 → natDigits b n = []) := by
+  obtain ⟨ds, e1, e2, e3, e4, e5⟩ := natDigitsAux_spec b hb (bitLen n) n [] (lt_two_pow_bitLen n)
+  unfold natDigits
+  rw [e1, List.append_nil]
+  exact ⟨e2, e3, e4, e5⟩
+
+/-- the character written for digit `d` reads back as `d` (table `big` ⇔ base above 36) and is neither
+    white space, nor a sign -/
+theorem digit_char (base : Int) (hb : (2 ≤ base ∧ base ≤ 62) ∨ (-36 ≤ base ∧ base ≤ -2)) (d : Nat)
+    (hd : d < base.natAbs) :
+    digitValue (decide ((base.natAbs : Int) > 36)) (numToText base d) = d ∧
+    isspace (numToText base d) = false ∧ numToText base d ≠ 45 ∧ (numToText base d = 48 ↔ d = 0) := by
+  unfold numToText digitValue isspace
+  rcases hb with ⟨h1, h2⟩ | ⟨h1, h2⟩
+  · have hpos : base ≥ 0 := by omega
+    simp only [hpos, if_true]
+    by_cases h36 : base ≤ 36
+    · have hbig : ¬ ((base.natAbs : Int) > 36) := by omega
+      simp only [h36, if_true, hbig, decide_false]
+      by_cases hd10 : d < 10
+      · simp only [hd10, if_true]
+        refine ⟨?_, ?_, by omega, by omega⟩
+        · rw [if_pos (by omega)]; omega
+        · simp; omega
+      · simp only [hd10, if_false]
+        refine ⟨?_, ?_, by omega, by omega⟩
+        · rw [if_neg (by omega), if_neg (by omega), if_pos (by omega)]; simp; omega
+        · simp; omega
+    · have hbig : ((base.natAbs : Int) > 36) := by omega
+      simp only [h36, if_false, hbig, decide_true]
+      by_cases hd10 : d < 10
+      · simp only [hd10, if_true]
+        refine ⟨?_, ?_, by omega, by omega⟩
+        · rw [if_pos (by omega)]; omega
+        · simp; omega
+      · simp only [hd10, if_false]
+        by_cases hd36 : d < 36
+        · simp only [hd36, if_true]
+          refine ⟨?_, ?_, by omega, by omega⟩
+          · rw [if_neg (by omega), if_pos (by omega)]; omega
+          · simp; omega
+        · simp only [hd36, if_false]
+          refine ⟨?_, ?_, by omega, by omega⟩
+          · rw [if_neg (by omega), if_neg (by omega), if_pos (by omega)]; simp; omega
+          · simp; omega
+  · have hneg : ¬ base ≥ 0 := by omega
+    have hbig : ¬ ((base.natAbs : Int) > 36) := by omega
+    simp only [hneg, if_false, hbig, decide_false]
+    by_cases hd10 : d < 10
+    · simp only [hd10, if_true]
+      refine ⟨?_, ?_, by omega, by omega⟩
+      · rw [if_pos (by omega)]; omega
+      · simp; omega
+    · simp only [hd10, if_false]
+      refine ⟨?_, ?_, by omega, by omega⟩
+      · rw [if_neg (by omega), if_pos (by omega)]; omega
+      · simp; omega
+
+theorem ungetc_head_tail (r : List Nat) : ungetc r.head? r.tail = r := by cases r <;> rfl
+
+theorem readDigits_stop (dv : Nat → Nat) (b c : Nat) (r acc : List Nat) (hc : dv c ≥ b) :
+    readDigits dv b (some c) r acc = (acc.reverse, some c, r) := by
+  cases r <;> simp [readDigits, hc]
+
+/-- the digit loop reads exactly the characters of the digits and stops at the terminator -/
+theorem readDigits_digits (dv : Nat → Nat) (b : Nat) (f : Nat → Nat) (rest : List Nat)
+    (hrest : ∀ c, rest.head? = some c → dv c ≥ b) :
+    ∀ (ds : List Nat) (d : Nat) (acc : List Nat), d < b → (∀ e ∈ ds, e < b) → (∀ e, e < b → dv (f e) = e) →
+    readDigits dv b (some (f d)) (ds.map f ++ rest) acc = (acc.reverse ++ d :: ds, rest.head?, rest.tail) := by
+  intro ds
+  induction ds with
+  | nil =>
+    intro d acc hd _ hf
+    have hdv := hf d hd
+    have hnb : ¬ (d ≥ b) := by omega
+    cases rest with
+    | nil => simp [readDigits, hdv, hnb]
+    | cons c r =>
+      have hc : dv c ≥ b := hrest c rfl
+      simp only [List.map_nil, List.nil_append, readDigits, hdv, hnb, if_false]
+      rw [readDigits_stop dv b c r _ hc]
+      simp
+  | cons e ds ih =>
+    intro d acc hd hds hf
+    have hdv := hf d hd
+    have hnb : ¬ (d ≥ b) := by omega
+    have he : e < b := hds e (by simp)
+    simp only [List.map_cons, List.cons_append, readDigits, hdv, hnb, if_false]
+    rw [ih e (d :: acc) he (fun x hx => hds x (by simp [hx])) hf]
+    simp
+
+theorem skipZeros_ne (c : Nat) (hc : c ≠ 48) (r : List Nat) (n : Nat) : skipZeros (some c) r n = (some c, r, n) := by
+  unfold skipZeros
+  split <;> simp_all
+
+/-- what `mpz_out_str` writes on a healthy stream -/
+def mpzText (base : Int) (x : Int) : List Nat :=
+  match outBase base with
+  | none => []
+  | some b => if x = 0 then [48] else (if x < 0 then [45] else []) ++ magText base b x.natAbs
+
+theorem mpz_out_str_text (base x : Int) :
+    (mpz_out_str {} base x).2.out = mpzText base x ∧ (mpz_out_str {} base x).1 = (mpzText base x).length := by
+  unfold mpz_out_str mpzText
+  cases hb : outBase base with
+  | none => simp
+  | some b =>
+    simp only
+    by_cases hx : x = 0
+    · simp [hx, OStream.write]
+    · simp only [hx, if_false]
+      have hH : Healthy ({} : OStream) := healthy_init
+      by_cases hn : x < 0
+      · simp only [hn, if_true]
+        obtain ⟨w1, w2, w3⟩ := write_healthy hH [45]
+        obtain ⟨v1, v2, v3⟩ := write_healthy w1 (magText base b x.natAbs)
+        refine ⟨by rw [v2, w2]; simp, ?_⟩
+        simp [v1.2.1, v3]; omega
+      · simp only [hn, if_false]
+        obtain ⟨v1, v2, v3⟩ := write_healthy hH (magText base b x.natAbs)
+        refine ⟨by simp [v2], ?_⟩
+        simp [v1.2.1, v3]
+
+/-- `mpz_inp_str_nowhite` in a fixed base `2 ≤ b ≤ 62`, started on the character of a non-zero digit
+    `d0` that is followed by the characters of the digits `ds` and then by `rest` (empty, or starting
+    with a character that is not a digit in base `b`) -/
+theorem nowhite_digits (x : Int) (b : Nat) (hb2 : 2 ≤ b) (hb62 : b ≤ 62) (f : Nat → Nat)
+    (hf : ∀ e, e < b → digitValue (decide ((b : Int) > 36)) (f e) = e ∧ f e ≠ 45 ∧ (f e = 48 ↔ e = 0))
+    (d0 : Nat) (ds rest : List Nat) (hd0 : d0 < b) (hd0z : d0 ≠ 0) (hds : ∀ e ∈ ds, e < b)
+    (hrest : ∀ c, rest.head? = some c → digitValue (decide ((b : Int) > 36)) c ≥ b) (nread : Nat) :
+    mpz_inp_str_nowhite x (ds.map f ++ rest) (b : Int) (some (f d0)) nread
+      = (nread + (ds.length + 1) - 1, (digitsVal b (d0 :: ds) : Int), rest) := by
+  obtain ⟨h1, h2, h3⟩ := hf d0 hd0
+  have hne48 : f d0 ≠ 48 := fun h => hd0z (h3.mp h)
+  have hrd := readDigits_digits (digitValue (decide ((b : Int) > 36))) b f rest hrest ds d0 [] hd0 hds
+    (fun e he => (hf e he).1)
+  unfold mpz_inp_str_nowhite
+  have hb62' : ¬ ((b : Int) > 62) := by omega
+  have hb0 : ¬ ((b : Int) = 0) := by omega
+  have hc45 : ¬ (some (f d0) = some 45) := by simpa using h2
+  have hdig : ¬ ((digitValue (decide ((b : Int) > 36)) (f d0) : Int) ≥ (b : Int)) := by rw [h1]; omega
+  simp only [hb62', if_false, hc45, hb0, hdig, Int.toNat_natCast, skipZeros_ne _ hne48, hrd,
+    List.reverse_nil, List.nil_append, List.length_cons, ungetc_head_tail, List.isEmpty_cons, Bool.false_eq_true]
+
+/-- the same after a minus sign -/
+theorem nowhite_neg_digits (x : Int) (b : Nat) (hb2 : 2 ≤ b) (hb62 : b ≤ 62) (f : Nat → Nat)
+    (hf : ∀ e, e < b → digitValue (decide ((b : Int) > 36)) (f e) = e ∧ f e ≠ 45 ∧ (f e = 48 ↔ e = 0))
+    (d0 : Nat) (ds rest : List Nat) (hd0 : d0 < b) (hd0z : d0 ≠ 0) (hds : ∀ e ∈ ds, e < b)
+    (hrest : ∀ c, rest.head? = some c → digitValue (decide ((b : Int) > 36)) c ≥ b) (nread : Nat) :
+    mpz_inp_str_nowhite x (f d0 :: (ds.map f ++ rest)) (b : Int) (some 45) nread
+      = (nread + 1 + (ds.length + 1) - 1, -(digitsVal b (d0 :: ds) : Int), rest) := by
+  obtain ⟨h1, h2, h3⟩ := hf d0 hd0
+  have hne48 : f d0 ≠ 48 := fun h => hd0z (h3.mp h)
+  have hrd := readDigits_digits (digitValue (decide ((b : Int) > 36))) b f rest hrest ds d0 [] hd0 hds
+    (fun e he => (hf e he).1)
+  unfold mpz_inp_str_nowhite
+  have hb62' : ¬ ((b : Int) > 62) := by omega
+  have hb0 : ¬ ((b : Int) = 0) := by omega
+  have hdig : ¬ ((digitValue (decide ((b : Int) > 36)) (f d0) : Int) ≥ (b : Int)) := by rw [h1]; omega
+  simp only [hb62', if_false, if_true, getc, hb0, hdig, Int.toNat_natCast, skipZeros_ne _ hne48, hrd,
+    List.reverse_nil, List.nil_append, List.length_cons, ungetc_head_tail, List.isEmpty_cons, Bool.false_eq_true]
+
+theorem outBase_abs (base : Int) (hb : (2 ≤ base ∧ base ≤ 62) ∨ (-36 ≤ base ∧ base ≤ -2)) :
+    outBase base = some base.natAbs := by
+  unfold outBase
+  rcases hb with ⟨h1, h2⟩ | ⟨h1, h2⟩
+  · have a : base ≥ 0 := by omega
+    have b : ¬ base = 0 := by omega
+    have c : ¬ base > 62 := by omega
+    simp only [a, if_true, b, if_false, c]
+    congr 1; omega
+  · have a : ¬ base ≥ 0 := by omega
+    simp only [a, if_false]
+    congr 1; omega
+
+/-- stream-level round trip of `mpz_out_str` / `mpz_inp_str` for one number followed by `rest` -/
+theorem mpz_text_roundtrip (base : Int) (hb : (2 ≤ base ∧ base ≤ 62) ∨ (-36 ≤ base ∧ base ≤ -2)) (x dest : Int)
+    (rest : List Nat)
+    (hrest : ∀ c, rest.head? = some c → digitValue (decide ((base.natAbs : Int) > 36)) c ≥ base.natAbs) :
+    mpz_inp_str_rd dest (mpzText base x ++ rest) (base.natAbs : Int) = ((mpzText base x).length, x, rest) := by
+  have hob := outBase_abs base hb
+  have hb2 : 2 ≤ base.natAbs := by omega
+  have hb62 : base.natAbs ≤ 62 := by omega
+  have hf : ∀ e, e < base.natAbs →
+      digitValue (decide ((base.natAbs : Int) > 36)) (numToText base e) = e ∧ numToText base e ≠ 45 ∧
+      (numToText base e = 48 ↔ e = 0) := by
+    intro e he; obtain ⟨a, _, c, d⟩ := digit_char base hb e he; exact ⟨a, c, d⟩
+  unfold mpzText mpz_inp_str_rd
+  rw [hob]
+  simp only
+  by_cases hx0 : x = 0
+  · subst hx0
+    simp only [if_true, List.cons_append, List.nil_append, List.length_singleton]
+    have hsp : isspace 48 = false := by decide
+    simp only [skipWs, hsp, Bool.false_eq_true, if_false]
+    unfold mpz_inp_str_nowhite
+    have hb62' : ¬ ((base.natAbs : Int) > 62) := by omega
+    have hb0 : ¬ ((base.natAbs : Int) = 0) := by omega
+    have hc45 : ¬ (some 48 = some 45) := by decide
+    have hdv48 : digitValue (decide ((base.natAbs : Int) > 36)) 48 = 0 := by simp [digitValue]
+    have hdig : ¬ ((digitValue (decide ((base.natAbs : Int) > 36)) 48 : Int) ≥ (base.natAbs : Int)) := by
+      rw [hdv48]; omega
+    simp only [hb62', if_false, hc45, hb0, hdig, Int.toNat_natCast]
+    cases rest with
+    | nil => simp [skipZeros, readDigits, ungetc]
+    | cons c r =>
+      have hc : digitValue (decide ((base.natAbs : Int) > 36)) c ≥ base.natAbs := hrest c rfl
+      have hc48 : c ≠ 48 := by intro h; rw [h, hdv48] at hc; omega
+      simp only [skipZeros, skipZeros_ne _ hc48, readDigits_stop _ _ c r [] hc]
+      simp [ungetc]
+  · simp only [hx0, if_false]
+    obtain ⟨v1, v2, v3, _⟩ := natDigits_spec base.natAbs hb2 x.natAbs
+    obtain ⟨n1, n2⟩ := v3 (by omega)
+    unfold magText
+    cases hds : natDigits base.natAbs x.natAbs with
+    | nil => exact absurd hds n1
+    | cons d0 ds =>
+      rw [hds] at v1 v2 n2
+      have hd0 : d0 < base.natAbs := v2 d0 (by simp)
+      have hd0z : d0 ≠ 0 := by simpa using n2
+      have hds' : ∀ e ∈ ds, e < base.natAbs := fun e he => v2 e (by simp [he])
+      obtain ⟨_, hsp0, _, _⟩ := digit_char base hb d0 hd0
+      by_cases hneg : x < 0
+      · simp only [hneg, if_true, List.map_cons, List.cons_append, List.nil_append, List.length_cons, List.length_map]
+        have hsp : isspace 45 = false := by decide
+        simp only [skipWs, hsp, Bool.false_eq_true, if_false]
+        rw [nowhite_neg_digits dest base.natAbs hb2 hb62 (numToText base) hf d0 ds rest hd0 hd0z hds' hrest, v1]
+        have hxx : -(x.natAbs : Int) = x := by omega
+        rw [hxx]; congr 1; omega
+      · simp only [hneg, if_false, List.map_cons, List.cons_append, List.nil_append, List.length_cons, List.length_map]
+        simp only [skipWs, hsp0, Bool.false_eq_true, if_false]
+        rw [nowhite_digits dest base.natAbs hb2 hb62 (numToText base) hf d0 ds rest hd0 hd0z hds' hrest, v1]
+        have hxx : (x.natAbs : Int) = x := by omega
+        rw [hxx]; congr 1; omega
+
+
 end Mpir.Io
